@@ -2,6 +2,7 @@
     Property theorems only. *)
 From Coq Require Import List Arith Bool String ZArith QArith.
 From Naunet Require Import Lib.ListX Model.Rates Proofs.RatesProofs.
+From NaunetGen Require Import Tables.
 Import ListNotations.
 Close Scope Q_scope.
 
@@ -54,3 +55,14 @@ Print Assumptions modifier_drops_guard.
 Theorem example_windows : c06_example_statement.
 Proof. exact c06_example_proof. Qed.
 Print Assumptions example_windows.
+
+(* tie to the current /repo (read from the source with ast on every run): the guard is written "Tgas>=" lower, "Tgas<" upper,
+   a bound takes part only when it is > 0, and the guarded assignment is  if (...) { k[i] = expr; }  -  the reading of
+   Model.Rates (Lower: Tgas>=tmin, Upper: Tgas<tmax, mk_guard on Qpos_b) *)
+Open Scope string_scope.
+Theorem live_guard_text :
+  assign_rates_pieces = ["Tgas>={r.temp_min}"; "Tgas<{r.temp_max}"; "{rate_sym}[{ridx}] = {rateexpr};"; "if ({trange}) {";
+                         "{rate_sym}[{ridx}] = {rateexpr};"; "}"] /\
+  assign_rates_tests = ["r.temp_min > 0"; "r.temp_max > 0"].
+Proof. split; reflexivity. Qed.
+Print Assumptions live_guard_text.
